@@ -15,9 +15,9 @@ def unit_registry(twin=False):
     sites = []
     for path in sorted(glob.glob(os.path.join(REPO, "src", "*.cpp")) + glob.glob(os.path.join(REPO, "src", "*.h*")) + glob.glob(os.path.join(REPO, "src", "*.F90")) ):
         for k, line in enumerate(open(path, encoding="latin1").read().split("\n")):
-            code = line.split("//")[0]
+            code = A.squeeze(line)                      # comments and white space do not count
             if "InstancesIndex" in code:
-                sites.append((os.path.relpath(path, REPO), k + 1, re.sub(r"\s+", "", code)))
+                sites.append((os.path.relpath(path, REPO), k + 1, code))
     allowed = {"staticsize_tInstancesIndex;", "size_tIPhreeqc::InstancesIndex=0;", "this->Index=IPhreeqc::InstancesIndex++;"}
     bad = [s for s in sites if s[2] not in allowed]
     r.add("counter.written_only_by_constructor_increment", DISCHARGED if not bad and len(sites) == 3 else FAILED, "syntactic", 0,
